@@ -51,6 +51,14 @@ Section NativeQuantile.
     wf_hist h -> 0 <= q1 -> q1 <= q2 -> q2 <= 1 ->
     res_le (hquantile iexp q1 h) (hquantile iexp q2 h).
   Proof. exact (quantile_mono iexp iexp_range iexp_mono). Qed.
+
+  (* histograms with NaN observations (sum NaN, count >= sum of the buckets; [wf_nan_hist]):
+     the forward search is used for every q; the result for the larger quantile is NaN (rank
+     beyond all buckets) or not smaller *)
+  Theorem C32_quantile_nan_sum_mono : forall h q1 q2,
+    wf_nan_hist h -> 0 <= q1 -> q1 <= q2 -> q2 <= 1 ->
+    hquantile iexp q2 h = RNaN \/ res_le (hquantile iexp q1 h) (hquantile iexp q2 h).
+  Proof. exact (quantile_mono_nan iexp iexp_range iexp_mono). Qed.
 End NativeQuantile.
 
 (* The code before "fix: promql: histogram_quantile interpolates in the last bucket when the
@@ -113,6 +121,8 @@ Example C32_nonvacuous_exponential : wf_hist example_hist.
 Proof. exact example_hist_wf. Qed.
 Example C32_nonvacuous_custom : wf_hist example_custom.
 Proof. exact example_custom_wf. Qed.
+Example C32_nonvacuous_nan_sum : wf_nan_hist example_nan.
+Proof. exact example_nan_wf. Qed.
 (* linear interpolation satisfies the interpolation hypotheses *)
 Example C32_nonvacuous_interp :
   (forall a b f, a < b -> 0 <= f -> f <= 1 -> a <= ilin a b f /\ ilin a b f <= b) /\
